@@ -89,6 +89,14 @@ fn run_scenario(sc: &Value) {
         let kind = op["op"].as_str().unwrap();
         if kind == "drop_co" {
             rec(json!({"ev": "drop_co", "co": c}));
+            if op.get("unwinding").and_then(Value::as_bool).unwrap_or(false) {
+                // the coroutine is owned by a frame that panics: it is dropped while the thread unwinds
+                let owned = cos[c - 1].take();
+                let _ = std::panic::catch_unwind(std::panic::AssertUnwindSafe(move || {
+                    let _held = owned;
+                    std::panic::panic_any("the owner of the coroutine panics");
+                }));
+            }
             drop(cos[c - 1].take());
             rec(json!({"ev": "mem", "live": PLAIN_LIVE.load(Ordering::SeqCst) - plain0}));
             continue;
